@@ -1,0 +1,18 @@
+//go:build verif
+
+package closest
+
+import "github.com/virus-evolution/gofasta/pkg/fastaio"
+
+// Thin exported wrappers around unexported functions, for the verification harness in /verif.
+// Only compiled with -tags verif.
+
+func VerifDistance(measure string, query, target fastaio.EncodedFastaRecord) float64 {
+	switch measure {
+	case "raw":
+		return rawDistance(query, target)
+	case "snp":
+		return snpDistance(query, target)
+	}
+	return tn93Distance(query, target)
+}
